@@ -268,10 +268,16 @@ class Client(object):
         self._flush_pipeline()
         if 'AUTH' not in self.extensions:
             return unknown_command
-        auth_ext = self.extensions.getparam('AUTH')
-        assert auth_ext is not None
-        advertised = [self._encode(mech_name)
-                      for mech_name in auth_ext.split()]
+        auth_ext = self.extensions.getparam('AUTH') or ''
+        advertised = []
+        for mech_name in auth_ext.split():
+            # A mechanism the server offers but this client does not
+            # implement is simply not a candidate.
+            try:
+                SASLAuth.named([self._encode(mech_name)])
+            except KeyError:
+                continue
+            advertised.append(self._encode(mech_name))
         auth = AuthSession(SASLAuth.named(advertised), self.io)
         if not mechanism and auth.client_mechanisms:
             mechanism = auth.client_mechanisms[0].name
